@@ -1055,6 +1055,11 @@ func (s ConcurrentFactStore) GetFacts(a ast.Atom, fn func(ast.Atom) error) error
 
 // Merge implementation that adds to the base store after acquiring a write lock.
 func (s ConcurrentFactStore) Merge(other ReadOnlyFactStore) {
+	// Merging a store into itself changes nothing; reading it under its own
+	// write lock would wait for that lock for ever.
+	if o, ok := other.(ConcurrentFactStore); ok && o.mutex == s.mutex {
+		return
+	}
 	s.mutex.Lock()
 	defer s.mutex.Unlock()
 	s.base.Merge(other)
